@@ -381,7 +381,7 @@ func run(hybrid, jwt bool, maxRefresh, freeOps int, extraGrant bool) {
 	if zz.Thorough() && freeOps == 1 {
 		rts = zz.Choice("refresh-scopes", 3)
 	}
-	s := &st{jwt: jwt, w: world.NewX(world.XOptions{Hybrid: hybrid, JWTAccess: jwt, Tweak: func(cfg *fosite.Config) {
+	s := &st{jwt: jwt, w: world.NewX(world.XOptions{Hybrid: hybrid, JWTAccess: jwt, DeterministicJWT: jwt, Tweak: func(cfg *fosite.Config) {
 		switch rts {
 		case 0:
 			cfg.RefreshTokenScopes = []string{}
